@@ -57,26 +57,35 @@ def check(ctx):
                 if isinstance(c.func, ast.Attribute) and c.func.attr in ("__enter__", "__exit__"):
                     ctx.ob("C15.P1", f"{f.short}/explicit-enter-exit", False, loc(f, c), "explicit __enter__/__exit__ call on the observer path", norm(c))
     # ---------------------------------------------------------------- P2 / P5
-    tot_funcs = {}
-    for f in notifying:
-        for c in notify_calls(f, "increment_total"):
-            sec = const(arg(c, None, "section"))
-            tot_funcs.setdefault(sec, []).append((f, c))
-    ok = set(tot_funcs) == {"run", "stale"} and all(len(v) == 1 for v in tot_funcs.values())
-    ctx.ob("C15.P2", "increment_total-sites", ok, "", f"increment_total sites per section: { {k: len(v) for k, v in tot_funcs.items()} }" if ok else
-           f"increment_total sites: { {str(k): [x[0].short for x in v] for k, v in tot_funcs.items()} } (expected one for 'run' and one for 'stale')")
-    if not ok:
-        raise AnalysisError("C15: totals functions not identified")
-    run_tot, stale_tot = tot_funcs["run"][0][0], tot_funcs["stale"][0][0]
-    for host, tot, phase, what in ((run, run_tot, rr.run_physical, "execution"), (rr.apply, stale_tot, rr.stale, "the stale check")):
+    from .evalrules import totals_site
+    sites_ = {}
+    try:
+        sites_ = {"run": totals_site(m, rr, "run"), "stale": totals_site(m, rr, "stale")}
+        ok = True
+    except AnalysisError as e_:
+        ok = False
+        ctx.ob("C15.P2", "increment_total-sites", False, "", f"the totals of a section are not announced by exactly one call of its phase's host: {e_}")
+        raise AnalysisError("C15: totals calls not identified")
+    # no other place announces totals
+    n_inc = sum(len(notify_calls(f, "increment_total")) for f in notifying)
+    ctx.ob("C15.P2", "increment_total-sites", ok and n_inc <= 2, "", f"totals call(s) for 'run' in {sites_['run'][0].short} and for 'stale' in {sites_['stale'][0].short}; "
+           f"{n_inc} increment_total site(s)" if ok and n_inc <= 2 else f"{n_inc} increment_total sites: totals can be announced more than once per section")
+    for host, tcall, phase, what in ((run, sites_["run"][1], rr.run_physical, "execution"), (rr.apply, sites_["stale"][1], rr.stale, "the stale check")):
         g = CFG(host, may_raise=any_call_may_raise)
-        tcalls = R.calls_to(m, host, tot)
+        tcalls = tcall if isinstance(tcall, list) else [tcall]
         pcalls = R.calls_to(m, host, phase)
-        ok = len(tcalls) == 1 and len(pcalls) >= 1
-        ctx.ob("C15.P2", f"{host.short}/totals-call", ok, loc(host), f"one totals call before {what}" if ok else f"totals call for {what} missing or duplicated")
+        # several totals calls must be alternatives: no path announces the totals twice
+        for i_, t1 in enumerate(tcalls):
+            for t2 in tcalls:
+                if t1 is not t2:
+                    twice = set(g.of_stmt_containing(t2, host.module)) & g.reach(g.of_stmt_containing(t1, host.module))
+                    ctx.ob("C15.P2", f"{host.short}/totals-once", not twice, loc(host, t2), "alternative totals calls lie on different paths" if not twice else
+                           "a path announces the totals of this section twice", norm(t2)[:80])
+        ok = len(pcalls) >= 1
+        ctx.ob("C15.P2", f"{host.short}/totals-call", ok, loc(host), f"one totals call before {what}" if ok else f"the call that starts {what} was not found")
         if not ok:
             continue
-        tn = set(g.of_stmt_containing(tcalls[0], host.module))
+        tn = {x_ for t_ in tcalls for x_ in g.of_stmt_containing(t_, host.module)}
         for pc in pcalls:
             for pn in g.of_stmt_containing(pc, host.module):
                 dom = g.dominates(tn, pn)
@@ -84,6 +93,12 @@ def check(ctx):
                        f"totals are announced on every path before {what}" if dom else f"{what} can start before its totals were announced", norm(pc)[:80])
         # P5: same plan between totals and phase
         plan_arg = tcalls[0].args[0] if tcalls[0].args else None
+        while isinstance(plan_arg, ast.Attribute):
+            plan_arg = plan_arg.value  # plan.graph handed to a shared helper
+        if plan_arg is None:
+            # the totals are announced inline: the plan is the variable the counting expression reads
+            pl_ = [n_ for n_ in names_in(stmt_of(host.module, tcalls[0])) if n_ == host.pos_params[0]]
+            plan_arg = ast.Name(id=pl_[0], ctx=ast.Load()) if pl_ else None
         if isinstance(plan_arg, ast.Name):
             pv = plan_arg.id
             between = set()
@@ -120,7 +135,7 @@ def check(ctx):
            if okp else "execution preparation transforms the plan beyond removing source literals")
     # ---------------------------------------------------------------- P3 / P4
     n_br = 0
-    for cb, section, tot in ((rr.runcb, "run", run_tot), (rr.stalecb, "stale", stale_tot)):
+    for cb, section in ((rr.runcb, "run"), (rr.stalecb, "stale")):
         mod = cb.module
         runs = notify_calls(cb, "increment_running")
         comps = notify_calls(cb, "increment_completed")
@@ -189,7 +204,7 @@ def check(ctx):
     from .evalrules import rule_totals
     ctx.run(lambda c_: rule_totals(c_, "C15.P4", rr))
     from .stalerules import rule_stale_totals
-    ctx.run(lambda c_: rule_stale_totals(c_, "C15.P4", rr, stale_tot))
+    ctx.run(lambda c_: rule_stale_totals(c_, "C15.P4", rr))
     from .extra import rule_error_path_total
     ctx.run(rule_error_path_total, "C15.P3")
     ctx.run(E.rule_atomic_counter, "C15.P3", er)
@@ -205,7 +220,14 @@ def check(ctx):
         ctx.ob("C15.P6", f"Composite.{name}/defined", ok, loc(comp.methods["__init__"]), "defined" if ok else f"composite does not implement {name}")
     ctx.run(rule_composite, "C15.P6", po, comp, abstract)
     # ---------------------------------------------------------------- P7
-    chain = [(run, rr.run_physical), (rr.run_physical, rr.prep_run), (run, rr.apply), (rr.apply, rr.stale), (rr.apply, stale_tot), (run, run_tot)]
+    # the totals calls are handed the run's observer as well
+    for sec_, (host_, tcs_) in sites_.items():
+        for tc_ in (tcs_ if isinstance(tcs_, list) else [tcs_]):
+            src_name = rr.observer_var if host_ is run else ([p_ for p_ in host_.params if "observer" in p_] or ["progress_observer"])[0]
+            ok = src_name in names_in(tc_)
+            ctx.ob("C15.P7", f"{host_.short} -> totals[{sec_}]/observer-forwarded", ok, loc(host_, tc_),
+                   "observer forwarded" if ok else "the run's observer is not passed on: the totals of this phase are announced to nobody", norm(tc_)[:80])
+    chain = [(run, rr.run_physical), (rr.run_physical, rr.prep_run), (run, rr.apply), (rr.apply, rr.stale)]
     for caller, callee in chain:
         for c in R.calls_to(m, caller, callee):
             pn = [p for p in callee.params if "observer" in p]
